@@ -4,15 +4,16 @@ import IcyVerif.Gen.Sixel
     thing control flow reads: `% palette.len()` and the `resize` in `set_color_rgb/hsl`).
 
     Every Rust operation that can panic is an explicit outcome (`Out.panic site`):
-    slice/Vec indexing, the `%`, and `i32` arithmetic on the sixel cursor (the harness is built with
-    overflow checks, like `cargo test`).  Every allocation whose size is taken from a NUMBER in the
+    slice/Vec indexing and the `%`.  The `i32` arithmetic on the sixel cursor is checked in the source
+    (`checked_add` / `checked_mul` … `.ok_or(InvalidPictureSize)?`, three `fix:` commits): overflow is the
+    parse error `invalidPictureSize`.  Every allocation whose size is taken from a NUMBER in the
     payload (repeat count, colour register, raster size) rather than from the payload's length is
     checked against `hugeLimit`; beyond it the model stops with `Out.huge` ("outside the modelled
     range": the real engine then allocates gigabytes, is OOM-killed or aborts).  Below the limit all
     `as i32`/`as usize` casts of the source are the identity, so `Nat` is faithful.
 
-    The model follows the REPAIRED tree (fix commits "sixel rows are padded to the widest row" and
-    "colour definition components no longer overflow"); `finishPinned` keeps the pinned concatenation
+    The model follows the REPAIRED tree (fix commits "sixel rows are padded to the widest row",
+    "colour definition components no longer overflow" and the three cursor commits); `finishPinned` keeps the pinned concatenation
     so the defect stays exhibitable. -/
 namespace IcyVerif.Sixel
 
@@ -21,9 +22,6 @@ inductive PState | read | readColor | readSize | repeat_
 
 /-- panic sites of `sixel_mod.rs` -/
 inductive Site
-  | cursorX      -- `self.sixel_cursor.x += 1`            (translate_sixel_to_pixel)
-  | cursorY      -- `self.sixel_cursor.y += 1`            (parse_sixel_data, '-')
-  | cursorY6     -- `self.sixel_cursor.y * 6`, `y_pos + 6` (translate_sixel_to_pixel)
   | rowIndex     -- `self.picture_data[translated_line as usize]`
   | pixelIndex   -- `cur_line[offset + k]`
   | paletteMod   -- `% self.current_sixel_palette.len() as u32`
@@ -61,6 +59,10 @@ structure St where
   color : Nat := 0
   /-- `current_sixel_palette.len()`; `Palette::default()` is the 16-colour DOS palette -/
   palLen : Nat := 16
+  /-- `vertical_scale` / `horizontal_scale`: given by the caller (`Sixel::parse_from`), overwritten by the first two
+      numbers of every raster attribute; copied into the returned `Sixel`, never read by the decoder -/
+  vscale : Nat := 1
+  hscale : Nat := 1
   deriving Repr, DecidableEq
 
 def i32Max : Nat := 2147483647
@@ -120,11 +122,11 @@ def growRows (rows : List Nat) (lastLine : Nat) : Out (List Nat) :=
 def translate (s : St) (ch : Char) : Out St :=
   if ch.toNat < 63 then .err .invalidSixelChar
   else if s.palLen % 4294967296 = 0 then .panic .paletteMod
-  else if s.y * 6 + 6 > i32Max then .panic .cursorY6
+  else if s.y * 6 + 6 > i32Max then .err .invalidPictureSize        -- `checked_mul(6)`, `checked_add(6)`
   else
     (growRows s.rows (lastLineOf s)).andThen fun rows =>
     (pixelLoop (ch.toNat - 63) (s.y * 6) (lastLineOf s) s.x [0, 1, 2, 3, 4, 5] rows).andThen fun rows' =>
-    if s.x + 1 > i32Max then .panic .cursorX
+    if s.x + 1 > i32Max then .err .invalidPictureSize               -- `x.checked_add(1)`
     else .ok { s with rows := rows', x := s.x + 1 }
 
 /-- `parse_sixel_data` -/
@@ -132,7 +134,7 @@ def sixelData (s : St) (ch : Char) : Out St :=
   if ch = '#' then .ok { s with nums := [], state := .readColor }
   else if ch = '!' then .ok { s with nums := [], state := .repeat_ }
   else if ch = '-' then
-    if s.y + 1 > i32Max then .panic .cursorY else .ok { s with x := 0, y := s.y + 1 }
+    if s.y + 1 > i32Max then .err .invalidPictureSize else .ok { s with x := 0, y := s.y + 1 }
   else if ch = '$' then .ok { s with x := 0 }
   else if ch = '"' then .ok { s with nums := [], state := .readSize }
   else if ch.toNat > 127 then .ok s
@@ -188,20 +190,20 @@ def colorArm (s : St) : Out St := defineColor (setColor s)
 def sizeArm (s : St) : Out St :=
   if s.nums.length < 2 ∨ s.nums.length > 4 then .err .invalidPictureSize
   else match s.nums[0]?, s.nums[1]? with
-    | some _, some _ =>
+    | some vs, some hs =>
       if s.nums.length = 3 then
         match s.nums[2]? with
         | some height =>
           if height > hugeLimit then .huge
-          else .ok { s with rows := resizeRows s.rows height 0, heightSet := true, state := .read }
+          else .ok { s with rows := resizeRows s.rows height 0, heightSet := true, state := .read, vscale := vs, hscale := hs }
         | none => .panic .numIndex
       else if s.nums.length = 4 then
         match s.nums[2]?, s.nums[3]? with
         | some w, some height =>
           if 4 * w > hugeLimit ∨ height > hugeLimit ∨ (height - s.rows.length) * (4 * w) > hugeLimit then .huge
-          else .ok { s with rows := resizeRows s.rows height (4 * w), heightSet := true, state := .read }
+          else .ok { s with rows := resizeRows s.rows height (4 * w), heightSet := true, state := .read, vscale := vs, hscale := hs }
         | _, _ => .panic .numIndex
-      else .ok { s with state := .read }
+      else .ok { s with state := .read, vscale := vs, hscale := hs }
     | _, _ => .panic .numIndex
 
 /-- `SixelParser::parse_char` -/
@@ -264,6 +266,19 @@ def parsePinned (payload : List Char) : Out Img := mapOut finishPinned (run {} (
 
 /-- final machine state (used by theorems about the raster declaration) -/
 def parseSt (payload : List Char) : Out St := run {} (payload ++ ['#'])
+
+/-- what `Sixel::parse_from(pos, horizontal_scale, vertical_scale, bg, data)` returns besides the position:
+    the picture and the two scale fields (`bg` is not read by the decoder: `_default_bg_color`) -/
+structure Decoded where
+  img : Img
+  hscale : Nat
+  vscale : Nat
+  deriving DecidableEq, Repr
+
+/-- `Sixel::parse_from` with the caller's scales (the terminal passes `1` and the value selected by the first
+    DCS parameter, see `SixelLoad.vscaleOf`) -/
+def decode (hs vs : Nat) (payload : List Char) : Out Decoded :=
+  mapOut (fun s => ⟨finish s, s.hscale, s.vscale⟩) (run { hscale := hs, vscale := vs } (payload ++ ['#']))
 
 /-- the literals used above are the ones in the source: `Gen/Sixel.lean` is regenerated from the working tree
     on every run, so a changed band height, pixel size, first data character, ignore threshold, control
